@@ -155,18 +155,23 @@ pub fn property() -> Property {
             ("graph.semantics", "non-topological-numbering", 300),
             ("graph.semantics", "multi-parent-node", 300),
             ("graph.semantics", "multi-edge", 100),
-            ("graph.semantics", "verdict-ok", 150),
+            ("graph.semantics", "verdict-ok", 100),
         ],
         subs: vec![
             prop_sub(
                 "graph.semantics",
                 200_000,
                 1_600_000,
-                |t| {
-                    graph_case(GraphCfg {
-                        max_nodes: t.pick(10, 24),
-                        ..Default::default()
-                    })
+                |t| match t {
+                    Tier::Quick => graph_case(GraphCfg::default()).boxed(),
+                    // bigger graphs fail more often (every node is a chance to fail): keep half of the cases at the
+                    // quick size, and let half of the big ones do without deliberately failing programs
+                    Tier::Thorough => prop_oneof![
+                        2 => graph_case(GraphCfg::default()),
+                        1 => graph_case(GraphCfg { max_nodes: 24, ..Default::default() }),
+                        1 => graph_case(GraphCfg { max_nodes: 24, failing: false, ..Default::default() }),
+                    ]
+                    .boxed(),
                 },
                 oracle,
             ),
